@@ -284,6 +284,23 @@ def check_folding_does_not_select_statements(ctx, prog):
     return n
 
 
+def _resolve_folders(prog):
+    """the two operator folders of the AST module, by role when they were renamed (`compare_holds`): the function of
+    compiler::ast that takes the operator kind and switches on it"""
+    global EVAL_BINOP, EVAL_COMPARE, _AC_KEEP_FULL
+    for kind, cur in ((BINOPKIND, "EVAL_BINOP"), (CMPKIND, "EVAL_COMPARE")):
+        name = globals()[cur]
+        if prog.has_fn(name):
+            continue
+        for k, f in sorted(prog.fns.items()):
+            if not k.startswith("minijinja::compiler::ast::") or f.kind == "closure":
+                continue
+            if any(f.locals[l].get("adt") == kind for l in range(1, f.argc + 1)) and arms.enum_switches(prog, f, kind):
+                _AC_KEEP_FULL = (set(_AC_KEEP_FULL) - {name}) | {k}
+                globals()[cur] = k
+                break
+
+
 def run(ctx):
     ctx.explain("C04: sibling cross-check by switch-arm summaries: (BinOpKind/CompareOpKind -> operator function and "
                 "operand order) extracted from the constant folder is compared with (kind -> Instruction) from the "
@@ -293,6 +310,7 @@ def run(ctx):
                 "the folder are only ever `.ok()`-ed.  Decides that both evaluators run the same function on the "
                 "same operands for every operator; it does not re-verify the operator functions themselves.")
     prog = ctx.prog
+    _resolve_folders(prog)
     n13 = check_folding_does_not_select_statements(ctx, prog)
     ctx.floor("C04.K13 statement-compiling calls of the generator", n13, 10)
     ev = prog.fn(EI)
@@ -334,19 +352,30 @@ def run(ctx):
     # CompareAndPreserve: inner switch on CompareOp
     cap_reg = vm_regs.get("CompareAndPreserve", set())
     cap_tab = {}
+    # the arms may be merged (`Eq | Ne | Lt .. => { checks; match op { .. } }`): every switch on the operator inside the
+    # handler contributes; a variant's operators are what all the switches that separate it agree on
+    per_v = {}
     for bb, cd in arms.enum_switches(prog, ev, CMPOP):
-        if bb in cap_reg:
-            for v, reg in arms.arm_regions(prog, ev, bb, CMPOP).items():
-                ops_ = []
-                pops_region = cap_reg
-                for s, c in sem_calls(ev, reg):
-                    # in CompareAndPreserve `b = pop; a = pop` happen before the inner switch
-                    sig = tuple(pop_side(ev, a, pops_region) for a in c.args[:2])
-                    ops_.append((s, sig))
-                cap_tab[v] = (sorted(set(ops_)), negated(prog, ev, reg, v, CMPOP))
-            break
+        if bb not in cap_reg:
+            continue
+        for v, reg in arms.arm_regions(prog, ev, bb, CMPOP).items():
+            ops_ = []
+            pops_region = cap_reg
+            for s, c in sem_calls(ev, reg):
+                # in CompareAndPreserve `b = pop; a = pop` happen before the inner switch
+                sig = tuple(pop_side(ev, a, pops_region) for a in c.args[:2])
+                ops_.append((s, sig))
+            if ops_:
+                per_v.setdefault(v, []).append((len(reg), set(ops_), negated(prog, ev, reg, v, CMPOP)))
+    for v, lst in per_v.items():
+        common = set.intersection(*[x[1] for x in lst])
+        lst.sort(key=lambda x: x[0])
+        cap_tab[v] = (sorted(common), lst[0][2])
     # ---- codegen tables
-    cb = prog.fn(COMPILE_BIN)
+    # read through private helpers an arm may have been moved into (`compile_sc_bin_op(c, and)`)
+    _KEEP_CG = ("compile_expr", "add", "add_with_span", "sc_bool", "start_sc_bool", "end_sc_bool", "push_span", "pop_span",
+                "compile_bin_op", "compile_compare", "emit_compare", "set_line_from_span")
+    cb = prog.view(COMPILE_BIN, keep=lambda t: t.rsplit("::", 1)[-1] in _KEEP_CG or not t.startswith("minijinja::compiler::codegen::"), max_blocks=60)
     sw = [x for x in arms.enum_switches(prog, cb, BINOPKIND)]
     ctx.need(sw, "C04: compile_bin_op has no switch on BinOpKind")
     cb_regs = arms.arm_regions(prog, cb, sw[0][0], BINOPKIND)
@@ -668,7 +697,8 @@ def run(ctx):
     # by something else for some literal shapes (a pre-built lookup table, a normalised constant) makes the operator
     # see a different value than the same operand held in a variable.
     for fn_name, fields in (("compile_bin_op", ("left", "right")), ("compile_compare", ("expr",))):
-        g8 = prog.fn("minijinja::compiler::codegen::CodeGenerator::" + fn_name)
+        g8 = prog.view("minijinja::compiler::codegen::CodeGenerator::" + fn_name,
+                       keep=lambda t: t.rsplit("::", 1)[-1] in _KEEP_CG or not t.startswith("minijinja::compiler::codegen::"), max_blocks=60)
         for fld in fields:
             sites = {c.bb for c in g8.calls() if c.name == COMPILE_EXPR and len(c.args) > 1 and any(
                 fld in o.proj for o in flow.origins(g8, c.args[1]))}
@@ -767,6 +797,26 @@ def run(ctx):
                         consts += [o.const.get("int", o.const.get("bool")) for o in flow.origins(ac, k.args[0]) if o.kind == "const"] or ["?"]
                 ok = not wr.budget_hit and c.bb not in fblocks and bool(consts) and all(str(x).lower() in ("0", "false") for x in consts)
                 detail = "walked with the verdict known - after a false link: next link reachable=%s, bools built: %s" % (c.bb in fblocks, consts)
+        if not ok:
+            # the link evaluator may answer with the verdict itself (`compare_holds(..) -> Option<bool>`): the switch then
+            # tests the bool that comes out of `?` directly
+            for sb in sorted(ac.reachable):
+                t_ = ac.term(sb)
+                if t_["k"] != "switch" or t_.get("ty") != "bool" or "c" in t_["discr"]:
+                    continue
+                cd = flow.cond_of(ac, sb)
+                src = flow.origins(ac, t_["discr"], through_calls=lambda k: 0 if ("branch" in k.name or "deref" in k.name) else None)
+                if not any(o.kind == "call" and o.call is c for o in src):
+                    continue
+                fblocks = set()
+                for e in cfg.bool_edges(ac, sb, cd.neg):
+                    fblocks |= cfg.reach_from(ac, e[1])
+                consts = []
+                for k in ac.calls():
+                    if k.bb in fblocks and "From<bool> for minijinja::value::Value" in k.name:
+                        consts += [o.const.get("int", o.const.get("bool")) for o in flow.origins(ac, k.args[0]) if o.kind == "const"] or ["?"]
+                ok = c.bb not in fblocks and bool(consts) and all(str(x).lower() in ("0", "false") for x in consts)
+                detail = "the link answers with a bool - after a false link: next link reachable=%s, value returned is the constant %s" % (c.bb in fblocks, consts)
         ctx.ob("C04.K6.chain-stops-at-first-false-link", AS_CONST, ok, detail, ac.where(c.bb))
 
 
